@@ -93,6 +93,7 @@ func checkC19(w *World, r *Report) {
 		}
 	}
 	checkScanFilter(w, r, tm, "SCAN-FILTER")
+	checkNoMut(w, r, tm, "NO-MUT")
 
 	// ---------------------------------------------------------------- IMMUT-FIELDS
 	initM, _ := w.genesisFns()
@@ -262,6 +263,24 @@ func checkC19(w *World, r *Report) {
 			r.Check(wrote[c], "ID-MONO", "genesis:"+c+"-restored", w.pos(initG.Pos()), "genesis import advances/sets "+c+" so that ids drawn after an import are fresh",
 				"genesis import never writes "+c+": after an export/import the next id drawn repeats the id of an imported record, which is then overwritten (its reservation stays in escrow and is paid to the wrong party)")
 		}
+		// every imported bid is numbered by the allocator (its id is the counter value drawn for it on every path), so the
+		// counter ends at the highest id whatever order and ids the file has
+		okB, whyB, nB := true, "no Bid write in genesis import", 0
+		for _, site := range tm.sitesWhere([]*ssa.Function{initG}, func(fr *Frame, in ssa.Instruction) bool {
+			e := w.EffectOf(in)
+			return e != nil && e.Kind == EffStoreWrite && e.Coll == "Bid" && e.Method == "Set"
+		}) {
+			nB++
+			id := normField(tm.OperandAt(site.Fr, site.In, site.In.(ssa.CallInstruction).Common().Args[3]), "Id", nil)
+			for _, alt := range id.Alts() {
+				if !alt.Any(func(t *Term) bool {
+					return t.Op == "binop" && t.Name == "+" && t.Args[1].Key() == "const<1>" && t.Args[0].Any(func(x *Term) bool { return x.Op == "call" && len(x.Args) > 0 && isField(x.Args[0], "BidSeq") })
+				}) {
+					okB, whyB = false, "an imported bid keeps the id "+alt.String()+" instead of the value drawn from the auction's bid counter: the counter can end below an imported id and the next bid placed overwrites that record"
+				}
+			}
+		}
+		r.Check(okB && nB > 0, "ID-MONO", "genesis:Bid.Id-from-counter", w.pos(initG.Pos()), "every bid imported from genesis is numbered by the auction's bid counter", whyB)
 	}
 	// ids assigned to new records
 	ms := w.msgServerMethods()
